@@ -18,6 +18,11 @@ CHECKS = {
     text="Exploration: 4-6 fixed trees x every pattern of <=2 components over a 26-54 component alphabet, plus 150k (quick) / 5M (thorough) random (tree, word) pairs with symlinks, unsearchable directories, metacharacter names, quoted segments and parts from variables; the probe's argument list must equal the model's sorted list of existing matching paths (or the unchanged word). Bounded.",
     note="Trusted: harness/src/model/glob.rs + model/fnmatch.rs. Classes the simulated OS cannot express (symlink in the middle of a path, unreadable directories) are skipped and counted; one simulator deviation is an open known finding (vfs-dot-in-unsearchable-dir).",
     design="4/C05"),
+ "C06": dict(
+    technique="property-based testing: grammar-based program generation, mutation of generated and corpus texts, token/Unicode soup, the repository's scripted-test corpus; oracles: totality (no panic/blocking/no-progress), metamorphic read-ahead check on line prefixes, and parse-print-parse equality on a hand-written structural normal form; typeset -fp path through the virtual shell",
+    text="Exploration: 100 corpus files (1972 embedded scripts), a 136-entry catalogue, 100k grammar programs, 100k mutants, 80k soup texts, 16k function definitions through typeset -fp, and every parameter-name string up to length 4 (quick; thorough ~12M): the parser must terminate with a tree or a syntax error (also through the shell: diagnostic + non-zero status), must not need a line it does not use, and every printed tree must re-parse to an equal normal form (idempotent printing). Bounded; generated nesting <= 40.",
+    note="Trusted: the normal-form walker over the public AST (only Locations erased) and the generators in harness/src/props/c06.rs. Here-document bodies are compared only by operator and delimiter. Six printer/lexer corner cases are open known findings; a stack probe records where unbounded recursion overflows (1008 nested groups on an 8 MiB stack).",
+    design="4/C06"),
  "C07": dict(
     technique="property-based testing: round trip quote->lex->expand over exhaustive/random strings, and print->evaluate-in-fresh-shell->snapshot comparison over proptest state-definition sequences for ten listing built-ins",
     text="Exploration: every string up to length 3 (quick) / 4 (thorough) over 43 shell-special characters plus random Unicode strings to length 40 must read back as exactly one identical field in six syntactic positions; random states (variables with attributes, arrays, aliases, functions, options, traps, umask) printed by alias / export -p / readonly -p / typeset -p / typeset -fp / set / set +o / trap / umask / umask -S must be recreated by a fresh shell evaluating the listing. Bounded.",
@@ -28,6 +33,11 @@ CHECKS = {
     text="Exploration: 10 subshell kinds x 67 state mutators x 3 schedules exhaustively, plus random sequences of 1-5 mutators under random schedules with preemption; the parent's complete observable state (variables+attributes, functions, aliases, options, positional parameters, traps, cwd, umask, descriptor table by open-file-description identity, signal dispositions) must be identical before and after; the child's view at entry must equal it except for reset command traps. Bounded.",
     note="Trusted: the snapshot probe (probes.rs) and process inspection (vsys.rs). `$?`, `$!`, the job list and the variable assigned from $( ) are excluded by construction; SIGCHLD handling installed by the shell itself is ignored.",
     design="4/C08"),
+ "C09": dict(
+    technique="property-based testing + fault enumeration: exhaustive single redirections (17 command kinds x 73 operator/operand pairs x 7 targets x noclobber), proptest redirection lists, and a descriptor-limit sweep (RLIMIT_NOFILE 3..16, two ways) against a reference descriptor-table/file model; invariant-only oracle under injected allocation failures",
+    text="Exploration: 17k exhaustive single-redirection cases, 300k (quick) / 10M (thorough) random lists of 1-3 redirections on every command kind with initial exec-opened descriptors, and 4k base cases re-run under every descriptor limit 3..16 so that allocation fails at every position (saving copy, open, here-document file, pipe). Predicted: table seen by the command, table afterwards (identical to before unless exec succeeded), file contents byte for byte, status, diagnostics; always: descriptors >= 10 are close-on-exec, nothing leaks.",
+    note="Trusted: harness/src/model/fdtable.rs and the snapshot probe. Under the limit sweep only the invariants are checked (which step fails is not predicted). Symbolic links and non-regular noclobber targets are not generated (simulator limitations).",
+    design="4/C09", level="fault_enumeration"),
  "C10": dict(
     technique="property-based testing: proptest programs with planted failures of every shell-error category and errexit toggles, run on the virtual shell vs a reference interpreter with the errexit rule and the shell-error table; EXIT-trap probe counted",
     text="Exploration: the C02 generator plus failing commands of each documented category, errexit on/off/toggled, EXIT trap; trace up to the abort point, nothing after it, status (exact where documented, else non-zero), EXIT probe exactly once and last. Bounded random search with shrinking.",
